@@ -694,6 +694,9 @@ func (u *Unit) exec(p *Path, in ssa.Instruction) {
 					}
 				}
 				p.names[obj.Name()] = val
+				if tv, ok := obj.(*types.Var); ok && tv.IsField() {
+					fieldNames[obj.Name()] = true
+				}
 				if x.IsAddr {
 					p.nameAddr[obj.Name()] = true
 				} else {
@@ -1270,3 +1273,6 @@ func (u *Unit) stringIndex(p *Path, x ssa.Value, sv, iv ssa.Value) {
 	p.assume(And(Ge(b, IntLit(0)), Le(b, IntLit(255))))
 	p.vals[x] = b.WithT(x.Type())
 }
+
+// fieldNames: source-level names that denote struct fields (never candidates when a renamed local is resolved).
+var fieldNames = map[string]bool{}
